@@ -359,6 +359,9 @@ func c18Case(r *obs.Run, i int) {
 				}
 			default:
 				p = 1 - math.Pow(10, -12*r.Rng.Float64())
+				if k%12 == 2 { // so close to 1 that the Solexa score lies below the smallest one
+					p = 1 - math.Pow(10, -13.5-2.4*r.Rng.Float64())
+				}
 			}
 			if p <= 0 || p >= 1 {
 				continue
@@ -397,7 +400,18 @@ func c18Case(r *obs.Run, i int) {
 			} else {
 				a := -10 * math.Log10(p/(1-p))
 				want := math.Floor(a + 0.5)
-				judged := !nearTie(a) && want >= -127 && want <= 126 && math.Abs(a-math.Round(a)) < 0.49
+				// outside the score range the nearest representable score is the last ordinary one at that end: 127 (which
+				// doubles as the p = 0 sentinel, as 254 does for Phred) and -127 (-128 stands for NaN)
+				saturated := false
+				if a > 128 {
+					want, saturated = 127, true
+				} else if a < -128 {
+					want, saturated = -127, true
+				}
+				if saturated {
+					r.Count("solexa_probabilities_outside_the_score_range", 1)
+				}
+				judged := saturated || (!nearTie(a) && want >= -127 && want <= 126 && math.Abs(a-math.Round(a)) < 0.49)
 				r.Note(fmt.Sprintf("se/%x", math.Float64bits(p)), judged)
 				if !judged {
 					continue
